@@ -44,7 +44,7 @@ def u32():
 
 
 @st.composite
-def tx_case(draw, profile="full", segwit=None, max_io=None):
+def tx_case(draw, profile="full", segwit=None, max_io=None, shapes=None):
     """profile: 'small' (1..4 ins/outs, scripts <= 80), 'full' (boundary counts and lengths), 'big' (+65536)."""
     big = profile == "big"
     small = profile == "small"
@@ -53,7 +53,7 @@ def tx_case(draw, profile="full", segwit=None, max_io=None):
         n_out = draw(st.integers(1, max_io or 4))
         many = False
     else:
-        shape = draw(st.sampled_from(["few", "few", "few", "few", "mid", "many-in", "many-out"]))
+        shape = draw(st.sampled_from(shapes or ["few", "few", "few", "few", "mid", "many-in", "many-out"]))
         many = shape.startswith("many")
         n_in = draw(st.sampled_from([252, 253, 254, 300])) if shape == "many-in" else draw(st.integers(1, 3))
         n_out = draw(st.sampled_from([252, 253, 254, 300])) if shape == "many-out" else draw(st.integers(1, 3))
